@@ -40,6 +40,7 @@ type world struct {
 	depth2  bool
 	big     bool
 	tornAt  int // >0: with torn == true only this I/O operation (a log write) is torn
+	tearCut int // >0: the torn write loses exactly its last tearCut bytes (20 = a COMMIT record) instead of a symbolic cut
 }
 
 var bigStr = func() string {
@@ -146,8 +147,13 @@ func (w *world) crashAndCheckT(onlyAfterLastCommit bool, torn bool) {
 		if w.tornAt > 0 && vf.FsTraceKind(0) != "" { // (the trace is visible in the engine only; the native replay gets k from the vector)
 			vf.Assume(k == w.tornAt)
 		}
-		tear = vf.Int()
-		vf.Assume(tear >= 0 && tear <= vf.FsTraceWriteLen(k))
+		if w.tearCut > 0 {
+			// concrete cut (natively the crash image computed by the engine is installed, the value is not used there)
+			tear = vf.FsTraceWriteLen(k) - w.tearCut
+		} else {
+			tear = vf.Int()
+			vf.Assume(tear >= 0 && tear <= vf.FsTraceWriteLen(k))
+		}
 		vf.Cover("c01.torn")
 	}
 	vf.FsCrash(k, tear)
@@ -235,7 +241,9 @@ func (w *world) crashAndCheckT(onlyAfterLastCommit bool, torn bool) {
 
 func history(ntxn int, onlyAfterLastCommit bool) { historyT(ntxn, onlyAfterLastCommit, false) }
 
-func historyT(ntxn int, onlyAfterLastCommit bool, torn bool) { historyD(ntxn, onlyAfterLastCommit, torn, false) }
+func historyT(ntxn int, onlyAfterLastCommit bool, torn bool) {
+	historyD(ntxn, onlyAfterLastCommit, torn, false)
+}
 
 func historyD(ntxn int, onlyAfterLastCommit bool, torn bool, depth2 bool) {
 	w := open(50)
@@ -495,11 +503,23 @@ func VF_C02_GrowLoser() {
 // rows, the second one deleted and committed (its slot is free), then a transaction deletes the fourth row
 // and commits; the crash tears one of the log writes at a symbolic byte (e.g. between the APPLYDELETE record
 // and the COMMIT record)
-func VF_C02_Torn_DeleteAboveFreeSlot()     { tornDelete(false) }
+func VF_C02_Torn_DeleteAboveFreeSlot()      { tornDelete(false) }
 func VF_C02_Torn_DeleteAboveFreeSlot_Last() { tornDelete(true) } // only the last log write (the second delete's commit) is torn
+
+// C20: the recovery of that crash image is itself interrupted at every point and repeated
+func VF_C20_CommitRecordLost_Delete() {
+	tornDepth2 = true
+	tornCut = 20 // exactly the COMMIT record of the second delete is lost
+	tornDelete(true)
+}
+
+var tornDepth2 = false
+var tornCut = 0
 
 func tornDelete(lastOnly bool) {
 	w := open(50)
+	w.depth2 = tornDepth2
+	w.tearCut = tornCut
 	tm := w.r.Shi.GetTransactionManager()
 	t := tm.Begin(nil)
 	for i := 0; i < 4; i++ {
@@ -532,4 +552,10 @@ func tornDelete(lastOnly bool) {
 		}
 	}
 	w.crashAndCheckT(false, true)
+}
+
+// single recovery, the COMMIT record of the second delete lost (cheap variant of the symbolic-tear entry)
+func VF_C02_CommitRecordLost_Delete() {
+	tornCut = 20
+	tornDelete(true)
 }
